@@ -63,6 +63,7 @@ type FnCtx struct {
 	wantProp  string
 	keySorts  map[string]string
 	locksTouched map[string]bool
+	reachableReturns int
 }
 
 type callFrame struct {
@@ -99,12 +100,23 @@ func (fx *FnCtx) oblige(st *State, name, kind string, cl *Clause, goal string) {
 		fx.oblOrder = append(fx.oblOrder, name)
 	}
 	o.Instances++
+	if o.Status == "undecided" {
+		// already undecided on an earlier path: further instances cannot improve the verdict to "discharged"
+		switch kind {
+		case "safety", "pre", "inv-entry", "model":
+			fx.sol.Assert(goal)
+		}
+		return
+	}
 	var inputs *ModelInputs
 	r := fx.sol.CheckNeg(goal, func(get func([]string) map[string]string) {
 		inputs = fx.extractInputs(get)
 	})
 	o.Ms += r.Ms
 	o.Backends[r.Backend]++
+	if strings.Contains(r.Raw, "(error") {
+		fx.unsupported("solver reported an error on " + name + ": " + firstLines(r.Raw, 2))
+	}
 	switch r.Status {
 	case "unsat":
 	case "sat":
@@ -473,10 +485,7 @@ func (fx *FnCtx) branch(st *State, fr *callFrame, b *ssa.BasicBlock, c string) {
 		fx.sol.Assert(cond)
 		feasible := true
 		if fx.paths > 40 || len(st.path) > 12 {
-			r := fx.sol.CheckSat("true")
-			if r.Status == "unsat" {
-				feasible = false
-			}
+			feasible = fx.sol.Feasible()
 		}
 		if feasible {
 			fx.execBlock(s2, fr, b.Succs[i], 0, b)
